@@ -32,6 +32,26 @@
 
 using namespace SymEngine;
 
+// Some defects of the set code are endless loops that allocate without bound ([2, oo) n Naturals) or endless
+// recursion: cap the address space and the CPU time of the harness process so that such an op ends as
+// E:BadAlloc / a crash that the runner attributes to the op, instead of exhausting the machine.
+#include <sys/resource.h>
+#include <unistd.h>
+namespace
+{
+struct Limits {
+    Limits()
+    {
+        struct rlimit a;
+        a.rlim_cur = a.rlim_max = (rlim_t)3 << 30;
+        setrlimit(RLIMIT_AS, &a);
+        struct rlimit c;
+        c.rlim_cur = c.rlim_max = 600;
+        setrlimit(RLIMIT_CPU, &c);
+    }
+} g_limits;
+} // namespace
+
 // ------------------------------------------------------------------ tiny extended rationals
 typedef long long ll;
 static ll gcdll(ll a, ll b)
@@ -669,8 +689,22 @@ static std::string ref_sup(const Ctx &c, const Bits &b, bool sup)
     return "none";
 }
 
+// per-op watchdog: an op that does not return within 20 s kills the process (SIGALRM); the runner then
+// records CRASH:rc=-14 for exactly this op and carries on with the next one
+struct Watchdog {
+    Watchdog()
+    {
+        alarm(20);
+    }
+    ~Watchdog()
+    {
+        alarm(0);
+    }
+};
+
 std::string hx_run(const std::string &line, std::string &oracle)
 {
+    Watchdog wd;
     size_t sp = line.find(' ');
     if (sp == std::string::npos)
         return "bad-op";
@@ -702,7 +736,13 @@ std::string hx_run(const std::string &line, std::string &oracle)
     c.topo_ok = !has_rats;
     c.nodes = 0;
     Bits ref;
-    RCP<const Set> r = eval(root, c, ref);
+    RCP<const Set> r;
+    try {
+        r = eval(root, c, ref);
+    } catch (const std::bad_alloc &) {
+        oracle = "FAIL:resource:the operation allocates without bound (endless loop) in " + node_str(root);
+        throw;
+    }
     stat("grid_points", (long)c.grid.pt.size());
     if (verb == "eval")
         return dump(*r);
